@@ -166,10 +166,6 @@ def region_of(case, pd_obs, pl_obs):
         for c in D["cols"]:
             if c["name"] == spec["name"] and spec["unique"] and sum(1 for v in c["vals"] if v == A.NULL) >= 2:
                 return "K_C08_nullDuplicates"
-    # polars raises schema-level errors (strict, missing / unordered columns, wrong dtype) without the row-level report
-    if pl_obs.get("scalars") and pd_obs.get("verdict") == "reject" and pl_obs.get("verdict") == "reject" \
-            and set(map(tuple, pl_obs["cells"])) <= set(map(tuple, pd_obs["cells"])):
-        return "K_C08_polarsStopsAtSchemaErrors"
     # Column(str) on an empty / all-null column of another dtype (C01 finding K_C01_strVacuous)
     for spec in S["columns"]:
         for c in D["cols"]:
